@@ -24,6 +24,7 @@ import (
 	"sort"
 	"strings"
 	"sync"
+	"time"
 
 	v1 "github.com/fatedier/frp/pkg/config/v1"
 	"github.com/fatedier/frp/pkg/msg"
@@ -52,6 +53,7 @@ type script struct {
 	body    string // what the stub writes
 	bodyCoq string // BReadFail | BGarbage | BParsed ...
 	trunc   bool
+	slowMs  int // the stub sleeps this long before it answers (system level, NewUserConn only)
 }
 
 func (s *script) coq() string {
@@ -458,6 +460,9 @@ func (st *httpStub) ServeHTTP(w http.ResponseWriter, r *http.Request) {
 		return
 	}
 	st.rec.add(st.id, req.Op, req.Content)
+	if sc != nil && sc.slowMs > 0 {
+		time.Sleep(time.Duration(sc.slowMs) * time.Millisecond)
+	}
 	if sc == nil {
 		w.WriteHeader(599)
 		return
@@ -612,6 +617,7 @@ const c15Tail = "Definition M := Eval vm_compute in mismatches check_case cases.
 	"Definition NHTTP := Eval vm_compute in (count_if (is_level 2) cases : Z).\nPrint NHTTP.\n" +
 	"Definition NSYS := Eval vm_compute in (count_if is_sys cases : Z).\nPrint NSYS.\n" +
 	"Definition NNOTIFY := Eval vm_compute in (count_if is_notify cases : Z).\nPrint NNOTIFY.\n" +
+	"Definition NDUPNAMES := Eval vm_compute in (count_if dup_names cases : Z).\nPrint NDUPNAMES.\n" +
 	"Definition NUNREACHABLE := Eval vm_compute in (count_if has_blind cases : Z).\nPrint NUNREACHABLE.\n"
 
 func runPlugins(cfg *runCfg) error {
